@@ -14,7 +14,7 @@
       code after fix C14-2): tabulated as well.
     A cell is a function [P : nat -> vec] from corner number to position; the neighbour across side
     slot [i] enters only through its centre [nb i : option vec]. *)
-From Coq Require Import Reals List Bool Arith.
+From Coq Require Import Reals ZArith List Bool Arith.
 From CB Require Import Base.Vec3.
 Import ListNotations.
 Open Scope R_scope.
@@ -127,3 +127,13 @@ Definition ref_QE : list (nat * nat) := [(0, 1); (1, 2); (2, 3); (3, 0)]%nat.
 Definition pts (l : list vec) : nat -> vec := fun i => nth i l vzero.
 Definition nbs (l : list (option vec)) : nat -> option vec := fun i => nth i l None.
 Definition none_nb : nat -> option vec := fun _ => None.
+
+(** ** constants and points as data: exact dyadic literals (mantissa, exponent) written by the harness *)
+Definition zd := (Z * Z)%type.
+Definition zvec := (zd * zd * zd)%type.
+Definition rd (d : zd) : R := dy (fst d) (snd d).
+Definition rv (v : zvec) : vec := (rd (fst (fst v)), rd (snd (fst v)), rd (snd v)).
+Definition zw := (zd * zd * zd)%type.
+Record zconsts := mkZ { z_add : bool; z_ea : zd; z_el : zd; z_no : zw; z_in : zw; z_as : zw }.
+Definition rw (w : zw) : R * R * R := (rd (fst (fst w)), rd (snd (fst w)), rd (snd w)).
+Definition rk (z : zconsts) : consts := mkConsts (z_add z) (rd (z_ea z)) (rd (z_el z)) (rw (z_no z)) (rw (z_in z)) (rw (z_as z)).
